@@ -18,24 +18,20 @@ theorem triplesOf_get [Inhabited S] : ∀ (nums : List S) (k : Nat), 3 * k + 2 <
   | [_], k, h => by simp at h
   | [_, _], k, h => by simp at h; omega
 
-/-- the running keypoint index: keypoint `k` of component `c` sits at offset (sum of the earlier components' keypoint counts) + `k` -/
-theorem personKeypoints_get (person : List (List S)) (c k : Nat) (hc : c < person.length) (hk : k < (triplesOf person[c]).length) :
-    (personKeypoints person)[((person.take c).map fun nums => (triplesOf nums).length).sum + k]? = (triplesOf person[c])[k]? := by
-  induction person generalizing c with
-  | nil => simp at hc
-  | cons nums rest ih =>
-    cases c with
-    | zero =>
-      simp only [personKeypoints, List.flatMap_cons, List.take_zero, List.map_nil, List.sum_nil, Nat.zero_add, List.getElem_cons_zero] at hk ⊢
-      rw [List.getElem?_append_left hk]
-    | succ c =>
-      simp only [personKeypoints, List.flatMap_cons, List.take_succ_cons, List.map_cons, List.sum_cons, List.getElem_cons_succ] at hk ⊢
-      rw [Nat.add_assoc, List.getElem?_append_right (by omega), Nat.add_sub_cancel_left]
-      exact ih c (by simpa using hc) hk
+/-- **where a keypoint belongs**: position `j` of header component `c` is header point (sum of the sizes of the components before `c`) + `j` -/
+theorem locate_offset : ∀ (sizes : List Nat) (c j : Nat) (hc : c < sizes.length), j < sizes[c] → locate sizes ((sizes.take c).sum + j) = some (c, j)
+  | n :: ns, 0, j, _, hj => by simp only [List.getElem_cons_zero] at hj; simp [locate, hj]
+  | n :: ns, c + 1, j, hc, hj => by
+    have ih := locate_offset ns c j (by simpa using hc) (by simpa using hj)
+    have e : ((n :: ns).take (c + 1)).sum + j = n + ((ns.take c).sum + j) := by simp only [List.take_succ_cons, List.sum_cons]; omega
+    rw [e]
+    simp only [locate]
+    rw [if_neg (by omega), show n + ((ns.take c).sum + j) - n = (ns.take c).sum + j by omega, ih]
+    rfl
 
 /-- the confidence / coordinates of cell `(f, p, k)` of a successfully loaded body are the `cell` lookup -/
-theorem loaded_meta (sc : Scalar S) (isZero : S → Bool) (total : Nat) (frames : List (OPFrame S)) (fps : S) (nf : Option Nat) (b : PBody S)
-    (h : loadOpenpose sc isZero total frames fps nf = some b) :
+theorem loaded_meta (sc : Scalar S) (isZero : S → Bool) (sizes : List Nat) (frames : List (OPFrame S)) (fps : S) (nf : Option Nat) (b : PBody S)
+    (h : loadOpenpose sc isZero sizes frames fps nf = some b) :
     b.fps = fps ∧ (∃ maxId, maxL (frames.map (·.id)) = some maxId ∧ numFrames b = nf.getD (maxId + 1)) ∧ (∀ fr ∈ frames, fr.id < numFrames b) := by
   unfold loadOpenpose at h
   simp only [Option.bind_eq_bind, Option.bind_eq_some_iff] at h
@@ -65,7 +61,7 @@ theorem frame_id_conforming (pre digits : String) (hpre : ∀ c ∈ pre.toList, 
 
 example : frameId "video_000000000012_keypoints.json" = some 12 := by decide +kernel
 /-- two components of 1 and 2 keypoints; frame 2 has one person; frames 0, 1 are absent -/
-example : (loadOpenpose natSc (· == 0) 3 [⟨2, [[[11, 12, 1], [21, 22, 0, 31, 32, 7]]]⟩] 24 none).map (fun b => (b.conf, b.data.getD 2 [], b.missing.getD 2 [])) =
+example : (loadOpenpose natSc (· == 0) [1, 2] [⟨2, [[[11, 12, 1], [21, 22, 0, 31, 32, 7]]]⟩] 24 none).map (fun b => (b.conf, b.data.getD 2 [], b.missing.getD 2 [])) =
     some ([[[0, 0, 0]], [[0, 0, 0]], [[1, 0, 7]]], [[[11, 12], [21, 22], [31, 32]]], [[[false, false], [true, true], [false, false]]]) := by decide +kernel
 
 end PoseVerif.Props.C19
@@ -73,11 +69,11 @@ namespace PoseVerif.Props.C19
 open PoseVerif
 variable {S : Type}
 /-- **Every cell**: frame `f`, person `p`, keypoint `k` of the loaded pose holds the `x`, `y` and confidence of `opCell`, and is missing exactly when that confidence is 0. -/
-theorem openpose_cell (sc : Scalar S) (isZero : S → Bool) (total : Nat) (frames : List (OPFrame S)) (fps : S) (nf : Option Nat) (b : PBody S)
-    (h : loadOpenpose sc isZero total frames fps nf = some b) (f p k : Nat) (hf : f < numFrames b) (hp : p < (b.conf.headD []).length) (hk : k < total) [Inhabited S] :
-    ((b.conf.getD f []).getD p []).getD k default = (opCell sc frames f p k).2.2 ∧
-    ((b.data.getD f []).getD p []).getD k [] = [(opCell sc frames f p k).1, (opCell sc frames f p k).2.1] ∧
-    ((b.missing.getD f []).getD p []).getD k [] = [isZero (opCell sc frames f p k).2.2, isZero (opCell sc frames f p k).2.2] := by
+theorem openpose_cell (sc : Scalar S) (isZero : S → Bool) (sizes : List Nat) (frames : List (OPFrame S)) (fps : S) (nf : Option Nat) (b : PBody S)
+    (h : loadOpenpose sc isZero sizes frames fps nf = some b) (f p k : Nat) (hf : f < numFrames b) (hp : p < (b.conf.headD []).length) (hk : k < sizes.sum) [Inhabited S] :
+    ((b.conf.getD f []).getD p []).getD k default = (opCell sc sizes frames f p k).2.2 ∧
+    ((b.data.getD f []).getD p []).getD k [] = [(opCell sc sizes frames f p k).1, (opCell sc sizes frames f p k).2.1] ∧
+    ((b.missing.getD f []).getD p []).getD k [] = [isZero (opCell sc sizes frames f p k).2.2, isZero (opCell sc sizes frames f p k).2.2] := by
   unfold loadOpenpose at h
   simp only [Option.bind_eq_bind, Option.bind_eq_some_iff] at h
   obtain ⟨maxId, hmax, people, hpeople, h⟩ := h
@@ -99,46 +95,54 @@ theorem openpose_cell (sc : Scalar S) (isZero : S → Bool) (total : Nat) (frame
       · rw [getD_range_map _ _ _ _ hf, getD_range_map _ _ _ _ hp', getD_range_map _ _ _ _ hk]
       · simp only [deriveMissing]
         have e1 := getD_zipWith' (List.zipWith (List.zipWith fun (pt : List S) c => pt.map fun _ => isZero c))
-          ((List.range (nf.getD (maxId + 1))).map fun f => (List.range people).map fun p => (List.range total).map fun k => [(opCell sc frames f p k).1, (opCell sc frames f p k).2.1])
-          ((List.range (nf.getD (maxId + 1))).map fun f => (List.range people).map fun p => (List.range total).map fun k => (opCell sc frames f p k).2.2)
+          ((List.range (nf.getD (maxId + 1))).map fun f => (List.range people).map fun p => (List.range sizes.sum).map fun k => [(opCell sc sizes frames f p k).1, (opCell sc sizes frames f p k).2.1])
+          ((List.range (nf.getD (maxId + 1))).map fun f => (List.range people).map fun p => (List.range sizes.sum).map fun k => (opCell sc sizes frames f p k).2.2)
           (by simp) f [] []
         simp only [List.zipWith_nil_left] at e1
         rw [e1, getD_range_map _ _ _ _ hf, getD_range_map _ _ _ _ hf]
         have e2 := getD_zipWith' (List.zipWith fun (pt : List S) c => pt.map fun _ => isZero c)
-          ((List.range people).map fun p => (List.range total).map fun k => [(opCell sc frames f p k).1, (opCell sc frames f p k).2.1])
-          ((List.range people).map fun p => (List.range total).map fun k => (opCell sc frames f p k).2.2) (by simp) p [] []
+          ((List.range people).map fun p => (List.range sizes.sum).map fun k => [(opCell sc sizes frames f p k).1, (opCell sc sizes frames f p k).2.1])
+          ((List.range people).map fun p => (List.range sizes.sum).map fun k => (opCell sc sizes frames f p k).2.2) (by simp) p [] []
         simp only [List.zipWith_nil_left] at e2
         rw [e2, getD_range_map _ _ _ _ hp', getD_range_map _ _ _ _ hp']
         have e3 := getD_zipWith' (fun (pt : List S) c => pt.map fun _ => isZero c)
-          ((List.range total).map fun k => [(opCell sc frames f p k).1, (opCell sc frames f p k).2.1])
-          ((List.range total).map fun k => (opCell sc frames f p k).2.2) (by simp) k [] default
+          ((List.range sizes.sum).map fun k => [(opCell sc sizes frames f p k).1, (opCell sc sizes frames f p k).2.1])
+          ((List.range sizes.sum).map fun k => (opCell sc sizes frames f p k).2.2) (by simp) k [] default
         simp only [List.map_nil] at e3
         rw [e3, getD_range_map _ _ _ _ hk, getD_range_map _ _ _ _ hk]
         rfl
 
 /-- a frame that is absent from the input, or a person absent from a frame, is all zeros (hence missing) -/
-theorem openpose_absent (sc : Scalar S) (frames : List (OPFrame S)) (f p k : Nat)
+theorem openpose_absent (sc : Scalar S) (sizes : List Nat) (frames : List (OPFrame S)) (f p k : Nat)
     (h : frames.find? (·.id == f) = none ∨ ∃ fr, frames.find? (·.id == f) = some fr ∧ fr.people.length ≤ p) :
-    opCell sc frames f p k = (sc.zero, sc.zero, sc.zero) := by
+    opCell sc sizes frames f p k = (sc.zero, sc.zero, sc.zero) := by
   unfold opCell
   rcases h with h | ⟨fr, h, hp⟩
   · rw [h]
   · rw [h]; simp only []
     rw [List.getElem?_eq_none hp]
 
-/-- a present keypoint is the triple `(numbers[3k], numbers[3k+1], numbers[3k+2])` of its component, found at the component's offset -/
-theorem openpose_present [Inhabited S] (sc : Scalar S) (frames : List (OPFrame S)) (fr : OPFrame S) (f p c k : Nat) (person : List (List S))
-    (hfind : frames.find? (·.id == f) = some fr) (hperson : fr.people[p]? = some person) (hc : c < person.length) (hk : 3 * k + 2 < person[c].length)
-    (hlen : ∃ n, person[c].length = 3 * n) :
-    opCell sc frames f p (((person.take c).map fun nums => (triplesOf nums).length).sum + k) =
-      (person[c].getD (3 * k) default, person[c].getD (3 * k + 1) default, person[c].getD (3 * k + 2) default) := by
+/-- a present keypoint is the triple `(numbers[3j], numbers[3j+1], numbers[3j+2])` of its component, found at the component's own offset in the header -/
+theorem openpose_present [Inhabited S] (sc : Scalar S) (sizes : List Nat) (frames : List (OPFrame S)) (fr : OPFrame S) (f p c j : Nat) (person : List (List S))
+    (hfind : frames.find? (·.id == f) = some fr) (hperson : fr.people[p]? = some person) (hc : c < sizes.length) (hj : j < sizes[c])
+    (hk : 3 * j + 2 < (person.getD c []).length) :
+    opCell sc sizes frames f p ((sizes.take c).sum + j) =
+      ((person.getD c []).getD (3 * j) default, (person.getD c []).getD (3 * j + 1) default, (person.getD c []).getD (3 * j + 2) default) := by
   unfold opCell
-  rw [hfind]; simp only [hperson]
-  obtain ⟨n, hn⟩ := hlen
-  have hkl : k < (triplesOf person[c]).length := by rw [triplesOf_length _ n hn]; omega
-  have h1 := personKeypoints_get person c k hc hkl
-  rw [triplesOf_get _ k hk] at h1
-  rw [List.getD_eq_getElem?_getD, h1]
+  rw [hfind]; simp only [hperson, locate_offset sizes c j hc hj]
+  have := triplesOf_get (person.getD c []) j hk
+  rw [List.getD_eq_getElem?_getD (l := triplesOf (person.getD c [])), this]
+  rfl
+
+/-- a part OpenPose was not asked to detect (an empty list), or a list that stops early: the remaining points of that component are zeros, hence missing,
+    and the components after it are where `openpose_present` says -/
+theorem openpose_short_component (sc : Scalar S) (sizes : List Nat) (frames : List (OPFrame S)) (fr : OPFrame S) (f p c j : Nat) (person : List (List S))
+    (hfind : frames.find? (·.id == f) = some fr) (hperson : fr.people[p]? = some person) (hc : c < sizes.length) (hj : j < sizes[c])
+    (hshort : (triplesOf (person.getD c [])).length ≤ j) :
+    opCell sc sizes frames f p ((sizes.take c).sum + j) = (sc.zero, sc.zero, sc.zero) := by
+  unfold opCell
+  rw [hfind]; simp only [hperson, locate_offset sizes c j hc hj]
+  rw [List.getD_eq_getElem?_getD (l := triplesOf (person.getD c [])), List.getElem?_eq_none hshort]
   rfl
 
 end PoseVerif.Props.C19
